@@ -626,8 +626,8 @@ def _check_apply(ctx, env, params, case, out=None):
     # dtype that holds them must give the result the int64 lengths give (narrow integer types wrap in 2 * lengths)
     if env.lengths is not None:
         for dt in LENGTH_DTYPES:
-            if dt == torch.uint8 and max(env.lens_eff) > 255:
-                continue
+            if dt == torch.uint8 and (max(env.lens_eff) > 255 or env.T > 255):
+                continue  # the type must hold the padded length too (torch refuses to compare a uint8 tensor with T)
             try:
                 alt = mod.apply_parameters(env.feats, params, env.lengths.to(dt))
             except Exception as ex:
